@@ -36,6 +36,18 @@ Proof.
     constructor; [unfold DOLLAR; lia | apply IH; exact Hr].
 Qed.
 
+Lemma nouscore_join : forall p, storable_path p = true -> has_char USCORE (join_dollar p ++ [DOLLAR]) = false.
+Proof.
+  intros p H. rewrite has_char_app. replace (has_char USCORE [DOLLAR]) with false by reflexivity. rewrite orb_false_r.
+  unfold storable_path in H. induction p as [|x r IH]; [reflexivity|].
+  cbn [forallb] in H. apply andb_true_iff in H as [Hx Hr].
+  destruct r as [|y r'].
+  - apply storable_nouscore. exact Hx.
+  - unfold join_dollar. rewrite join_with_cons2, has_char_app, (storable_nouscore x Hx).
+    unfold has_char at 1. cbn [existsb orb]. replace (USCORE =? DOLLAR) with false by reflexivity. cbn [orb].
+    apply IH. exact Hr.
+Qed.
+
 Lemma join_eqb : forall p q, good_path p -> good_path q ->
   str_eqb (join_dollar q) (join_dollar p) = path_eqb q p.
 Proof.
@@ -109,7 +121,8 @@ Proof.
   assert (Hq : noquote (join_dollar k ++ [DOLLAR])).
   { apply noquote_app; [apply good_noquote_join; exact Hk | reflexivity]. }
   rewrite lex_splice_noquote by exact Hq. f_equal. rewrite existsb_map. apply existsb_ext_in.
-  intros r Hr. cbn. pose proof (good_rows_in rs r Hrs Hr) as Gr.
+  intros r Hr. cbn [enc r_key fst]. pose proof (good_rows_in rs r Hrs Hr) as Gr.
+  rewrite starts_with_like_plain by (apply nouscore_join; destruct Hk; assumption).
   apply starts_with_join; try (apply good_nodollar; assumption).
   - destruct Hk; assumption.
   - destruct Gr; assumption.
@@ -174,6 +187,7 @@ Proof.
       apply parse_join_last. eapply good_rows_in; eassumption.
     + intros r Hr. unfold enc. cbn [r_key r_tab fst snd]. pose proof (good_rows_in rs r Hrs Hr) as Gr.
       rewrite <- andb_assoc. f_equal.
+      rewrite starts_with_like_plain by (apply nouscore_join; exact Hid).
       rewrite starts_with_join; try (apply good_nodollar; assumption); try (destruct Gid; assumption); try (destruct Gr; assumption).
       destruct (strict_prefix id (r_key r)) eqn:SP.
       * apply strict_prefix_iff in SP as [tl [Htl Eq]].
